@@ -14,12 +14,14 @@ Definition the_facts : facts :=
      f_lock_wipes_last := lock_wipes_last_addrs;
      f_unlock_skips_keyless := unlock_skips_keyless_accounts;
      f_keyless_not_queued := keyless_addresses_not_queued;
-     f_change_rejects_empty := change_rejects_empty_private |}.
+     f_change_rejects_empty := change_rejects_empty_private;
+     f_privkey_checks_first := privkey_checks_lock_first;
+     f_unlock_preloads := unlock_loads_queued_accounts |}.
 
 Definition all_true : facts :=
   {| f_cache_checked := true; f_lock_purges_cache := true; f_lock_wipes_wscripts := true;
      f_lock_wipes_last := true; f_unlock_skips_keyless := true; f_keyless_not_queued := true;
-     f_change_rejects_empty := true |}.
+     f_change_rejects_empty := true; f_privkey_checks_first := true; f_unlock_preloads := true |}.
 
 (* One clear-text buffer, named as the hook names it (canonicalised). *)
 Inductive slot :=
